@@ -3,6 +3,11 @@
 import json
 
 CLAIMED = {
+    "C05": {
+        "text": "Proof (partial for the scheduler): the evaluator model is a function of context, program and start state, so repeatability and context immutability of the model are definitional; the one impure-looking mechanism of the code - in-place append on uniquely owned Arc buffers in impl Add for Value - is modelled as a reference-counted heap state machine and proved unobservable: concat keeps the ownership invariant (count = number of live handles), its result reads as the concatenation, every handle that survives the operation reads exactly what it read before (the in-place path is only taken when no alias exists), for every reachable state by induction over operation histories; for threads that read shared data and write only their own state every schedule yields, per thread, what it would compute alone (interleaving_irrelevant). Assumed, not proved: that Rust's Arc counts equal the number of aliases, and that real scheduler interleavings are schedules of such atomic steps; these are observed: histories of 2-50 executions (concatenation- and macro-heavy, aliased values) with the context and all earlier results re-read after each execution and every execution repeated; the same histories under 4-16 threads x 20-200 rounds sharing &Program and a root &Context through inner scopes (separate celconc binary, which also carries the compile-time Send + Sync assertions - its failure to compile is reported as the violation).",
+        "technique": "Lean 4 invariant proof over a reference-counted heap state machine and a schedule-independence theorem + history / multi-thread differential observation of the real code",
+        "design_ref": "DESIGN.md section 5, C05",
+    },
     "C16": {
         "text": "Proof over a model of chrono's observable calendar (proleptic Gregorian day arithmetic, RFC 3339 text): civil_roundtrip / days_roundtrip - every valid date maps to a day number that maps back and vice versa, for ALL years, from a kernel-evaluated table of one full 400-year era (146 097 days and 148 800 (year-of-era, month, day) triples, 32 chunks, `decide +kernel`, no native_decide) lifted by era arithmetic; accessors_recompose - the ten accessors are the fields of the local time at the timestamp's own offset and recompose to the instant exactly, with the documented 0-/1-based origins and Sunday = 0 (1970-01-01 is a Thursday); rfc3339_roundtrip - timestamp(string(t)) == t incl. the offset for years 0000-9999 (full statement: 0/3/6/9-digit fractions, sign, offset); equality and ordering compare instants regardless of offset; t + d - d == t and (t + d) - t == d whenever t + d is representable, otherwise an overflow error; no operator panics (the chrono panics were repaired: fix: commits D15, getDayOfYear). Tie to the code: first/last day of every month of boundary years x boundary times x offsets -12:00..+14:00 and random instants, as text and as host values, against the model and an independent calendar that counts days year by year.",
         "technique": "Lean 4: kernel-evaluated era table (decide +kernel, chunked) + era-shift lifting, digit/padding lemmas for the RFC 3339 round trip + differential correspondence with an independent calendar",
